@@ -474,21 +474,22 @@ func splitTopLevel(s string, sep byte) []string {
 // loadContracts reads the guarded contract files of /repo and the trusted specs of /verif.
 func loadContracts(repoRoot, verifRoot string) (*ContractSet, error) {
 	cs := newContractSet()
-	repoFiles := []struct{ path, pkg string }{
-		{"bigtable/bttest/zz_verif_contracts.go", "bttest"},
-		{"storage/gcsemu/zz_verif_contracts.go", "gcsemu"},
-		{"storage/gcsutil/zz_verif_contracts.go", "gcsutil"},
+	repoDirs := []struct{ dir, pkg string }{
+		{"bigtable/bttest", "bttest"},
+		{"storage/gcsemu", "gcsemu"},
+		{"storage/gcsutil", "gcsutil"},
 	}
-	for _, f := range repoFiles {
-		b, err := os.ReadFile(filepath.Join(repoRoot, f.path))
-		if err != nil {
-			if os.IsNotExist(err) {
-				continue
+	for _, d := range repoDirs {
+		files, _ := filepath.Glob(filepath.Join(repoRoot, d.dir, "zz_verif_contracts*.go"))
+		sort.Strings(files)
+		for _, f := range files {
+			b, err := os.ReadFile(f)
+			if err != nil {
+				return nil, err
 			}
-			return nil, err
-		}
-		if err := cs.parseContractText(filepath.Join(repoRoot, f.path), f.pkg, string(b)); err != nil {
-			return nil, err
+			if err := cs.parseContractText(f, d.pkg, string(b)); err != nil {
+				return nil, err
+			}
 		}
 	}
 	specs, _ := filepath.Glob(filepath.Join(verifRoot, "contracts", "trusted", "*.spec"))
